@@ -540,10 +540,9 @@ def main(ctx):
             segs = F.socks_segmentations(data, thorough=not quick)
             if quick and len(segs) > 7:
                 keep = segs[:1] + segs[-1:] + rnd.sample(segs[1:-1], 5)
-                if ol is not None:
-                    keep += [s for s in segs if len(s[1]) == 2 and
-                             len(s[1][0]) == ol]
                 segs = keep
+            if ol is not None and 0 < ol < len(data):
+                segs.append((f'split@{ol}', [data[:ol], data[ol:]]))
             for name, chunks in segs:
                 loose = ol is not None and not (len(chunks) == 2 and
                                                 len(chunks[0]) == ol)
